@@ -155,6 +155,16 @@ fn c05_fams(tier: Tier) -> Vec<Fam> {
         ]
     };
     let degrees: Vec<Degree> = Degree::ALL.to_vec();
+    // extreme decimation: the step between output frames is longer than the filter (and than
+    // the history the fixed-input types keep in front of a chunk)
+    v.push(Fam::Sinc { l: 8, os: 16, interp: Interp::Cubic, ratio: 1.0 / 16.0 });
+    v.push(Fam::Sinc { l: 16, os: 16, interp: Interp::Linear, ratio: 1.0 / 40.0 });
+    if !q {
+        v.push(Fam::Sinc { l: 32, os: 32, interp: Interp::Cubic, ratio: 1.0 / 40.0 });
+        v.push(Fam::Sinc { l: 64, os: 16, interp: Interp::Quadratic, ratio: 500.0 / 48000.0 });
+    }
+    v.push(Fam::Fast { degree: Degree::Cubic, ratio: 1.0 / 12.0 });
+    v.push(Fam::Fast { degree: Degree::Septic, ratio: 1.0 / 40.0 });
     for &ratio in &ratios {
         for &(l, os, interp) in &sincs {
             v.push(Fam::Sinc { l, os, interp, ratio });
@@ -294,6 +304,12 @@ impl Check for C05 {
         let fam = c05_fams(tier).into_iter().nth(idx).ok_or("no item")?;
         let mut acc = C05Acc { evals: 0, nontrivial: 0, found: vec![], worst: 0.0, samples: vec![], outcomes: vec![] };
         let n_in = if tier == Tier::Quick { 1200 } else { 2500 };
+        // (enough input for a few hundred output frames at extreme decimation too)
+        let fam_ratio = match fam {
+            Fam::Sinc { ratio, .. } | Fam::Fast { ratio, .. } => ratio,
+            _ => 1.0,
+        };
+        let n_in = if fam_ratio < 0.1 { (n_in as f64 * 0.25 / fam_ratio) as usize } else { n_in };
         let tol = 1e-8;
         let label;
         match fam {
@@ -435,6 +451,9 @@ struct C07Item {
     horizon: Option<usize>,
 }
 
+/// Schedule entry (MASKED, k): k processing calls whose mask has every channel off.
+const MASKED: usize = usize::MAX;
+
 /// A ratio r (as an f64) whose reciprocal, as the resamplers compute it (1.0 / r), is exactly
 /// the dyadic step `t`.
 fn ratio_for_step(t: f64) -> Option<f64> {
@@ -464,6 +483,11 @@ fn c07_items(tier: Tier) -> Vec<C07Item> {
                 for (l, os, interp) in [(8, 2, Interp::Cubic), (8, 2, Interp::Nearest), (16, 4, Interp::Linear), (16, 3, Interp::Quadratic), (64, 16, Interp::Nearest)] {
                     let c = Cfg::sinc(kind, *ratio, 1.0, chunk, l, os, interp, Kernel::Probe);
                     cfgs.push((c.clone(), vec![]));
+                    if l == 8 || os == 4 {
+                        // every call, or three calls out of five, with all channels masked out
+                        cfgs.push((c.clone(), vec![(MASKED, 1)]));
+                        cfgs.push((c.clone(), vec![(MASKED, 3), (chunk, 2)]));
+                    }
                     if chunk >= 7 {
                         // periodic chunk-size schedules
                         cfgs.push((c.clone(), vec![(1, 3), (chunk, 2)]));
@@ -475,6 +499,9 @@ fn c07_items(tier: Tier) -> Vec<C07Item> {
             for kind in [Kind::FI, Kind::FO] {
                 for d in [Degree::Septic, Degree::Linear, Degree::Nearest] {
                     cfgs.push((Cfg::fast(kind, *ratio, 1.0, chunk, d), vec![]));
+                    if d == Degree::Linear {
+                        cfgs.push((Cfg::fast(kind, *ratio, 1.0, chunk, d), vec![(MASKED, 1)]));
+                    }
                 }
             }
             items.push(C07Item { cfgs, horizon: None });
@@ -553,7 +580,10 @@ fn c07_items(tier: Tier) -> Vec<C07Item> {
             }
             cfgs.push((Cfg::fft(Kind::XX, a, b, chunk, 1), vec![]));
         }
-        items.push(C07Item { cfgs, horizon: None });
+        // coprime rates in the tens of thousands: every block is a prime-sized FFT of that many
+        // points and every fingerprint covers that many saved frames - a shorter horizon
+        let horizon = if a / gcd(a, b) > 20000 { Some(400) } else { None };
+        items.push(C07Item { cfgs, horizon });
     }
     items
 }
@@ -598,6 +628,14 @@ fn c07_one(acc: &mut C07Acc, cfg: &Cfg, sched: &Schedule, horizon: usize, journa
         cyc.push(Op::P);
     } else {
         for (c, k) in sched {
+            if *c == MASKED {
+                // k calls with every channel masked out: nothing is written, but the stream
+                // position advances as in any other call
+                for _ in 0..*k {
+                    cyc.push(Op::PM(0, true));
+                }
+                continue;
+            }
             cyc.push(Op::C(*c));
             for _ in 0..*k {
                 cyc.push(Op::P);
